@@ -242,6 +242,17 @@ func main() {
 			}
 		}
 	}
+	// ... and signatures that name the digest of the empty blob together with ANOTHER size
+	for _, f := range lib.Formats {
+		for _, alg := range []digest.Algorithm{digest.SHA256, digest.SHA384} {
+			sg := good
+			if alg == digest.SHA384 {
+				sg = good384
+			}
+			d := ocispec.Descriptor{MediaType: artA.Desc.MediaType, Digest: alg.FromBytes(nil), Size: 7}
+			pool = append(pool, env{fmt.Sprintf("fresh-empty-blob-digest-with-size-7|%s|%s", f, alg), f, lib.MustCoreSign(lib.SignSpec{Format: f, Payload: lib.Payload(d), Signer: sg})})
+		}
+	}
 	nFresh := len(pool)
 	// re-assembly
 	rngR := r.Rand("reassemble")
@@ -329,8 +340,8 @@ func main() {
 	}
 	levels := lib.AllLevelMaps()
 	presentsOCI := []string{"A", "B", "A-digest", "A-size", "A-mediaType", "A-mediaType-empty", "A-annotations"}
-	presentsBlob := []string{"A", "B", "A-byte", "A-length", "A-mt-unstated", "A-mt-different", "A-mt-different-B", "A-mt-parameterised"}
-	metaReqs := []string{"none", "subset", "exact", "value-changed", "extra-key", "empty-value-missing-key", "reserved-prefixed-missing", "reserved-prefixed-next-to-satisfied", "none", "none"}
+	presentsBlob := []string{"A-empty", "A", "B", "A-byte", "A-length", "A-mt-unstated", "A-mt-different", "A-mt-different-B", "A-mt-parameterised"}
+	metaReqs := []string{"value-with-trailing-blank", "key-with-leading-blank", "none", "subset", "exact", "value-changed", "extra-key", "empty-value-missing-key", "reserved-prefixed-missing", "reserved-prefixed-next-to-satisfied", "none", "none"}
 	var cases []caseT
 	rngC := r.Rand("cases")
 	nCases := r.N(60000, 3000000)
@@ -403,6 +414,10 @@ func main() {
 			req = map[string]string{"buildId": "101", "team": "x"}
 		case "value-changed":
 			req = map[string]string{"buildId": "102"}
+		case "value-with-trailing-blank": // a required pair is required as written: "101 " is not "101"
+			req = map[string]string{"buildId": "101 ", "team": "x"}
+		case "key-with-leading-blank":
+			req = map[string]string{" buildId": "101", "team\n": "x"}
 		case "extra-key":
 			req = map[string]string{"buildId": "101", "approved": "yes"}
 		case "empty-value-missing-key":
@@ -434,6 +449,8 @@ func main() {
 			blob[len(blob)/2] ^= 1
 		case "A-length":
 			blob = blob[:len(blob)-1]
+		case "A-empty":
+			blob = []byte{} // the empty blob is a blob: its digest AND its size (0) are what a signature has to name
 		case "A-mt-unstated":
 			blobMTStated = false
 		case "A-mt-different", "A-mt-different-B":
